@@ -8,3 +8,5 @@ INVARIANT ExportTopo
 INVARIANT ExportGeneric
 INVARIANT UmLaws
 INVARIANT ExportUm
+INVARIANT ScanLaws
+INVARIANT ExportScan
